@@ -226,10 +226,34 @@ func encOne(w []string) string {
 		}
 		return guard(func() string { return mapclearOne(w[1], n, sd) })
 	}
-	buf, err := proto.Unhex(w[1])
+	raw, err := proto.Unhex(w[1])
 	if err != nil {
 		return "bad-op"
 	}
+	// the buffer handed to the code is a window into a larger array (capacity beyond its length), so that a
+	// write past the buffer's length lands in guard bytes instead of faulting
+	big := make([]byte, len(raw)+16)
+	for i := range big {
+		big[i] = 0xA5
+	}
+	buf := big[8 : 8+len(raw)]
+	copy(buf, raw)
+	guardsIntact := func() bool {
+		for i := 0; i < 8; i++ {
+			if big[i] != 0xA5 || big[8+len(raw)+i] != 0xA5 {
+				return false
+			}
+		}
+		return true
+	}
+	if r := encBuf(w, buf); !guardsIntact() {
+		return "wrote-outside-buffer " + proto.Hex(big)
+	} else {
+		return r
+	}
+}
+
+func encBuf(w []string, buf []byte) string {
 	switch w[0] {
 	case "put64", "put32":
 		if len(w) != 3 {
